@@ -410,6 +410,22 @@ design(
 """,
 )
 
+design(
+    "dynamic_ports",
+    """
+    def architecture(self):
+        led = std.add_entity_port(self, Port.output(Bit, name="led0"))
+        sel = std.add_entity_port(self, Port.input(Unsigned[2], name="sel"))
+
+        @std.sequential(std.Clock(self.clk))
+        def proc():
+            #@CTX
+            led.next = self.v[sel]
+            self.w <<= self.v
+            self.o <<= self.a
+""",
+)
+
 # designs that are invalid only because of context: must be rejected in a fresh interpreter
 CONTEXT_INVALID = {}
 CONTEXT_INVALID["wait_duration_no_freq"] = (
@@ -494,6 +510,23 @@ retry(
 
         if FLAGS['bad']:
             Signal[Bit](3)
+""",
+)
+retry(
+    "retry_dynamic_port",
+    """
+    def architecture(self):
+        # a port added while the architecture is elaborated; the rejection comes after it
+        led = std.add_entity_port(self, Port.output(Bit, name="led0"))
+        if FLAGS['bad']:
+            assert False, 'planted after a dynamic port was added'
+        extra = std.add_entity_port(self, Port.input(Bit, name="sel1"))
+
+        @std.sequential(std.Clock(self.clk))
+        def proc():
+            led.next = self.a & extra
+            self.w <<= self.v
+            self.o <<= self.b
 """,
 )
 retry(
